@@ -3,6 +3,7 @@ CONSTANTS
   Scenario = "mio6"
   N = 2
   Cap = 16
+  Kinds <- KindsNone
   GenK = 1
 VIEW View
 INVARIANT Inv_NoLostWake
